@@ -131,7 +131,7 @@ class PickledDict(PersistentBytesDict):
         self.close()
 
     def clear(self):
-        self.__data = {}
+        self.__data.clear()  # in place: a closed dict keeps its closed marker and raises
 
     @property
     def dict_local_path(self):
